@@ -84,7 +84,8 @@ def run_thorough(ctx, mod):
         is_benign = d in benign
         sid = os.path.basename(d) if not is_benign else os.path.basename(os.path.dirname(d)) + "-" + os.path.basename(d)
         patch = os.path.join(d, "patch.diff")
-        scratch = os.path.join(SCRATCH_ROOT, sid)
+        # unique per property and process: thorough checks of properties that share a crate group may run in parallel
+        scratch = os.path.join(SCRATCH_ROOT, f"{ctx.pid}-{os.getpid()}-{sid}")
         rec = {"id": sid, "status": "skipped", "fired": []}
         if is_benign:
             out["benign_total"] += 1
